@@ -41,7 +41,13 @@ func NoPreempt(on bool) {}
 
 func Fault(domain, site string) bool   { return nextDecision("fault:"+domain+":"+site, 2) == 1 }
 func FaultBudget(domain string, n int) { setBudget(domain, n) }
-func MapOrderAll(on bool)              {}
+
+// FaultCap bounds the total number of injected faults across all domains (negative: no cap).
+func FaultCap(n int) { faultCap, faultCapSet = n, n >= 0 }
+
+// Faulted reports how many faults were injected at domain:site so far.
+func Faulted(domain, site string) int { return faulted[domain+":"+site] }
+func MapOrderAll(on bool)             {}
 
 // ---- non-forking boolean combinators ----
 
